@@ -10,10 +10,10 @@ Open Scope Z_scope.
 Definition ol3 (roa : bool) : ol := fold_left (ol_append 0 roa) [0; 1; 2] ol_empty.
 Definition show (s : ol) : list (Z * option Z) := map (fun e => (e, pos s e)) (items s).
 
-(* l[-1] = e7 : the NEGATIVE index is stored as the position *)
-Lemma setitem_negative_refuted :
-  ol_guard false (ol3 false) (OSetItem (-1) 7) = false /\
-  show (snd (ol_step 0 false true (ol3 false) (OSetItem (-1) 7))) = [(0, Some 0); (1, Some 1); (7, Some (-1))].
+(* l[-1] = e7 : repaired by 60dfe78 (was: the negative index stored as the position, (7, Some (-1))) *)
+Lemma setitem_negative_fixed :
+  ol_guard false (ol3 false) (OSetItem (-1) 7) = true /\
+  show (snd (ol_step 0 false true (ol3 false) (OSetItem (-1) 7))) = [(0, Some 0); (1, Some 1); (7, Some 2)].
 Proof. vm_compute. split; reflexivity. Qed.
 
 (* the inherited sort / reverse / *= never touch the positions *)
@@ -59,19 +59,18 @@ Proof. vm_compute. reflexivity. Qed.
 (* ---- proxies ---- *)
 Definition px3 : px := pl_extend px_empty [1; 2; 3].
 
-(* p[1:10] = [7] : stop is not clamped, the delete loop runs off the end *)
-Lemma proxy_setslice_refuted :
+(* p[1:10] = [7] and p[-2:] = [7] : repaired by 99130b4 (was: IndexError after deleting two members) *)
+Lemma proxy_setslice_fixed :
   let sl := mkslice (Some 1) (Some 10) None in
-  pl_guard px3 (PSetSlice sl [7]) = false /\
-  fst (pl_step px3 (PSetSlice sl [7])) = PRaise IndexError /\
-  to_list (snd (pl_step px3 (PSetSlice sl [7]))) = [1] /\
+  pl_guard px3 (PSetSlice sl [7]) = true /\
+  fst (pl_step px3 (PSetSlice sl [7])) = POk /\
+  to_list (snd (pl_step px3 (PSetSlice sl [7]))) = [1; 7] /\
   plop_ref (to_list px3) (PSetSlice sl [7]) = (POk, [1; 7]).
 Proof. vm_compute. repeat split; reflexivity. Qed.
-(* p[-2:] = [7] : a negative start is not normalised *)
-Lemma proxy_setslice_negative_refuted :
+Lemma proxy_setslice_negative_fixed :
   let sl := mkslice (Some (-2)) None None in
-  pl_guard px3 (PSetSlice sl [7]) = false /\
-  fst (pl_step px3 (PSetSlice sl [7])) = PRaise IndexError /\
+  pl_guard px3 (PSetSlice sl [7]) = true /\
+  (fst (pl_step px3 (PSetSlice sl [7])), to_list (snd (pl_step px3 (PSetSlice sl [7])))) = (POk, [1; 7]) /\
   plop_ref (to_list px3) (PSetSlice sl [7]) = (POk, [1; 7]).
 Proof. vm_compute. repeat split; reflexivity. Qed.
 (* p *= -1 leaves the proxy unchanged, a list is emptied *)
@@ -82,10 +81,11 @@ Lemma proxy_imul_negative_refuted :
 Proof. vm_compute. repeat split; reflexivity. Qed.
 
 Definition pd1 : px := pd_setitem px_empty 0 5.
-(* d.pop(key, default) with an absent key applies the getter to the default *)
-Lemma proxy_dict_pop_default_refuted :
-  pd_guard pd1 (DPop 3 (Some 7)) = false /\
-  fst (pd_step pd1 (DPop 3 (Some 7))) = DAttrError /\
+(* d.pop(key, default) with an absent key: repaired by f24ff68 (was: AttributeError, the getter applied to
+   the default) *)
+Lemma proxy_dict_pop_default_fixed :
+  pd_guard pd1 (DPop 3 (Some 7)) = true /\
+  pd_step pd1 (DPop 3 (Some 7)) = (DOk (Some 7), pd1) /\
   pdop_ref (to_dict pd1) (DPop 3 (Some 7)) = (DOk (Some 7), [(0, 5)]).
 Proof. vm_compute. repeat split; reflexivity. Qed.
 
